@@ -43,8 +43,8 @@ func (prop) Assumptions() []string {
 }
 
 type params struct {
-	Svc    int `json:"svc"`
-	Offset int `json:"offset"`
+	Svc      int  `json:"svc"`
+	Offset   int  `json:"offset"`
 	ConcOnly bool `json:"conc_only,omitempty"`
 }
 
@@ -110,8 +110,8 @@ func fixedCases(s gen.Service) [][][]byte {
 		hdr := []byte{1, 1, 0, 0x0b, 0, 0, 0, 1}
 		return [][][]byte{
 			mk(append(append([]byte{}, hdr...), 0x03)),
-			mk(append([]byte{}, hdr...)),                                 // no groups, no end tag
-			mk(append(append([]byte{}, hdr...), 0x01)),                   // group, no end tag
+			mk(append([]byte{}, hdr...)),                                         // no groups, no end tag
+			mk(append(append([]byte{}, hdr...), 0x01)),                           // group, no end tag
 			mk(append(append([]byte{}, hdr...), 0x01, 0x22, 0, 1, 'f', 0, 1, 1)), // boolean as last attribute, no end tag
 			mk(append(append([]byte{}, hdr...), 0x01, 0x22, 0, 1, 'f', 0, 1, 1, 0x03)),
 			mk(hdr[:3]),
@@ -119,12 +119,12 @@ func fixedCases(s gen.Service) [][][]byte {
 	case "ldap":
 		return [][][]byte{
 			{{0x30, 0x0c, 0x02, 0x01, 0x01, 0x60, 0x07, 0x02, 0x01, 0x03, 0x04, 0x00, 0x80, 0x00}},
-			{{0x04, 0x84, 0x7f, 0xff, 0xff, 0xff}},                                     // 2^31-1
-			{{0x04, 0x85, 0x01, 0x00, 0x00, 0x00, 0x00}},                               // 2^32
-			{{0x04, 0x88, 0xff, 0xff, 0xff, 0xff, 0xff, 0xff, 0xff, 0xff}},             // negative
-			{{0x04, 0x88, 0x40, 0x00, 0x00, 0x00, 0x00, 0x00, 0x00, 0x00}},             // 2^62
-			{{0x30, 0x80, 0x04, 0x86, 0x01, 0x00, 0x00, 0x00, 0x00, 0x00}},             // 2^40 inside indefinite sequence
-			{{0x04, 0x86, 0x01, 0x00, 0x00, 0x00, 0x00, 0x00}},                         // 2^40
+			{{0x04, 0x84, 0x7f, 0xff, 0xff, 0xff}},                         // 2^31-1
+			{{0x04, 0x85, 0x01, 0x00, 0x00, 0x00, 0x00}},                   // 2^32
+			{{0x04, 0x88, 0xff, 0xff, 0xff, 0xff, 0xff, 0xff, 0xff, 0xff}}, // negative
+			{{0x04, 0x88, 0x40, 0x00, 0x00, 0x00, 0x00, 0x00, 0x00, 0x00}}, // 2^62
+			{{0x30, 0x80, 0x04, 0x86, 0x01, 0x00, 0x00, 0x00, 0x00, 0x00}}, // 2^40 inside indefinite sequence
+			{{0x04, 0x86, 0x01, 0x00, 0x00, 0x00, 0x00, 0x00}},             // 2^40
 		}
 	case "vnc":
 		spf0 := []byte{0, 0, 0, 0, 32, 24, 0, 0, 0, 255, 0, 255, 0, 255, 16, 8, 0, 0, 0, 0}
@@ -264,17 +264,17 @@ func inputHash(sc scenario) string {
 }
 
 type scnRec struct {
-	Kind     string   `json:"kind"`
-	K        int      `json:"K"`
-	Seg      int      `json:"seg"`
-	Bytes    int      `json:"bytes"`
-	Hash     string   `json:"hash"`
-	Reply    int      `json:"reply"`
-	Events   int      `json:"events"`
+	Kind      string   `json:"kind"`
+	K         int      `json:"K"`
+	Seg       int      `json:"seg"`
+	Bytes     int      `json:"bytes"`
+	Hash      string   `json:"hash"`
+	Reply     int      `json:"reply"`
+	Events    int      `json:"events"`
 	Recovered []string `json:"recovered,omitempty"`
-	ProbeOK  bool     `json:"probe_ok"`
-	Linger   int      `json:"linger"`
-	Head     string   `json:"head,omitempty"`
+	ProbeOK   bool     `json:"probe_ok"`
+	Linger    int      `json:"linger"`
+	Head      string   `json:"head,omitempty"`
 }
 
 func writePNG(path string) {
